@@ -2399,6 +2399,10 @@ class SFTPGlob:
             if filename in (b'.', b'..'):
                 continue
 
+            if b'/' in filename:
+                raise SFTPBadMessage('Invalid filename in '
+                                     'directory listing')
+
             if not pattern or fnmatch(filename, pattern):
                 newpath = posixpath.join(path, filename)
                 attrs = entry.attrs
